@@ -75,7 +75,8 @@ class CountingPlayServer(c11.PlayServer):
         self.complete.append(len(self.sock.inbox))
 
 
-def truncated(ctx, conversation, pv=757, n_max=None, sentinel=False):
+def truncated(ctx, conversation, pv=757, n_max=None, sentinel=False,
+              initial=None):
     import minecraft
     from minecraft.networking.connection import Connection, ConnectionContext
     from minecraft.networking.packets import clientbound, Packet
@@ -159,7 +160,7 @@ def truncated(ctx, conversation, pv=757, n_max=None, sentinel=False):
         if conversation == 'connect_status':
             conn = Connection('host', 25565, username='u',
                               allowed_versions=[pv, 340],
-                              initial_version=pv, **kw)
+                              initial_version=initial or pv, **kw)
         else:
             conn = Connection('host', 25565, username='u',
                               allowed_versions=[pv], **kw)
@@ -173,7 +174,7 @@ def truncated(ctx, conversation, pv=757, n_max=None, sentinel=False):
         # the first socket's stream is cut at offset `cut`
         first = wld.sockets[0]
         first.stream.cut = E(cut) if ctx.mode == 'sym' else cut
-        ran = wld.run()
+        ran = wld.run(max_threads=6)
     srv = servers[0]
     stream = first.stream
     conds = []
@@ -233,9 +234,9 @@ def truncated(ctx, conversation, pv=757, n_max=None, sentinel=False):
 def instances(tier, seed):
     out = []
     convs = [('status', 757), ('play', 757), ('play', 47), ('play_z', 757),
-             ('enc', 757)]
+             ('enc', 757), ('connect_status', 757)]
     if tier == 'thorough':
-        convs += [('status', 47), ('play_z', 47), ('connect_status', 757),
+        convs += [('status', 47), ('play_z', 47),
                   ('play', 340), ('play', 404)]
     for conv, pv in convs:
         out.append(Instance('truncated:%s:%d' % (conv, pv), 'truncated',
@@ -243,6 +244,12 @@ def instances(tier, seed):
                             W=192 if conv == 'enc' else 96,
                             budget_s=1800, max_decisions=100000,
                             conc_timeout_s=6))
+    # the configured default version lies OUTSIDE the allowed set
+    out.append(Instance('truncated:connect_status:757:default754',
+                        'truncated', {'conversation': 'connect_status',
+                                      'pv': 757, 'initial': 754}, W=96,
+                        budget_s=1800, max_decisions=100000,
+                        conc_timeout_s=6))
     out.append(Instance('sentinel:truncated', 'truncated',
                         {'conversation': 'play', 'pv': 757,
                          'sentinel': True}, W=96, expect='violation',
